@@ -3,6 +3,7 @@ package main
 import (
 	"fmt"
 	"go/token"
+	"go/types"
 	"strings"
 
 	"golang.org/x/tools/go/ssa"
@@ -137,6 +138,9 @@ func isReceiverOf(v ssa.Value, fn *ssa.Function) bool {
 	return false
 }
 
+// fields a node copy legitimately leaves unset, with the reason
+var c10CopyExempt = map[string]string{}
+
 func c10(c *Ctx) {
 	// ---- C10.1 copy-on-write -----------------------------------------------------------------------
 	r := "C10.1/copy-on-write"
@@ -259,6 +263,74 @@ func c10(c *Ctx) {
 		if c.fn(m) == nil {
 			c.undecided(r, m, "in-place mutator does not resolve")
 		}
+	}
+
+	// ---- C10.1 copies carry every field ---------------------------------------------------------------
+	// a node or leaf value built as a copy of another one (some field initialised from the same field of
+	// another object of the same type) must initialise every field of the type: a field left at its zero value
+	// silently drops part of the logical content (the history pointers hOff/hCount of a leaf value)
+	rc := "C10.1/copy-carries-every-field"
+	ncopies := 0
+	for _, fn := range c.allFns {
+		if !fnInPkgs(fn, tbPkgs) || len(fn.Blocks) == 0 {
+			continue
+		}
+		ord := 0
+		allInstrs(fn, false, func(in ssa.Instruction) {
+			a, ok := in.(*ssa.Alloc)
+			if !ok || !a.Heap {
+				return
+			}
+			st := structName(a.Type())
+			// nodes (leafNode/innerNode) are excluded on purpose: their _ts/_minOff are derived and recomputed by
+			// updateTs after construction, so "every field initialised" is not a necessary condition for them
+			if st != "leafValue" {
+				return
+			}
+			stype, _ := a.Type().Underlying().(*types.Pointer).Elem().Underlying().(*types.Struct)
+			if stype == nil {
+				return
+			}
+			set := map[string]bool{}
+			isCopy := false
+			for _, ref := range *a.Referrers() {
+				fa, ok := ref.(*ssa.FieldAddr)
+				if !ok {
+					continue
+				}
+				name := stype.Field(fa.Field).Name()
+				for _, r2 := range *fa.Referrers() {
+					sto, ok := r2.(*ssa.Store)
+					if !ok || sto.Addr != fa {
+						continue
+					}
+					set[name] = true
+					// value is a load of the same field of another object of this type
+					if ld, ok := sto.Val.(*ssa.UnOp); ok && ld.Op == token.MUL {
+						if sfa, ok := ld.X.(*ssa.FieldAddr); ok && structName(sfa.X.Type()) == st && sfa.Field == fa.Field && sfa.X != ssa.Value(a) {
+							isCopy = true
+						}
+					}
+				}
+			}
+			if !isCopy {
+				return
+			}
+			ncopies++
+			ord++
+			for i := 0; i < stype.NumFields(); i++ {
+				name := stype.Field(i).Name()
+				if why, ok := c10CopyExempt[st+"."+name]; ok {
+					c.okTrivial(rc, fmt.Sprintf("%s:%s#%d:%s", fnName(fn), st, ord, name), c.pos(a.Pos()), "exempt: "+why)
+					continue
+				}
+				c.check(set[name], rc, fmt.Sprintf("%s:%s#%d:%s", fnName(fn), st, ord, name), c.pos(a.Pos()), "field is carried over or re-initialised",
+					fmt.Sprintf("a %s is built as a copy of another one but its field %s is left at the zero value", st, name))
+			}
+		})
+	}
+	if ncopies < 2 {
+		c.undecided(rc, "floor", fmt.Sprintf("%d copy sites of tree nodes found (2 leaf-value copies confirmed by hand)", ncopies))
 	}
 
 	// ---- C10.2 lockset and pairing -------------------------------------------------------------------
